@@ -104,7 +104,7 @@ fn seq_op(
 
 fn run_seq(case: &Value) -> Value {
     let ops = case["ops"].as_array().unwrap().clone();
-    let dbmode = case["mode"].as_str() == Some("db");
+    let dbmode = matches!(case["mode"].as_str(), Some("db") | Some("text"));
     // the public counters may be set before the history starts (boundary cases around 2^31 / u32::MAX)
     let start_next = case["start_next"].as_u64().map(|x| x as u32);
     let start_next_qt = case["start_next_qt"].as_u64().map(|x| x as u32);
@@ -189,6 +189,13 @@ fn populate(db: &mut SparqlDatabase, ops: &[Value]) {
                     Some(g) => GraphId::Named(db.dictionary.write().unwrap().encode(g)),
                 };
                 db.delete_quad(&Quad { subject: s, predicate: p, object: o, graph: g });
+            }
+            "Seed" => {
+                // a seed written into the public map: its triple need not be asserted in any graph
+                let s = db.encode_term_star(rendered(&a[1]));
+                let p = db.encode_term_star(rendered(&a[2]));
+                let o = db.encode_term_star(rendered(&a[3]));
+                db.probability_seeds.insert(Triple { subject: s, predicate: p, object: o }, a[4].as_u64().unwrap() as f64 / 16.0);
             }
             other => panic!("unknown bop {}", other),
         }
